@@ -85,7 +85,7 @@ CASES = [
     ("m-c08-magic-row", "C08", "fire", "xdis/magics.py", "add_magic_from_int(3420, \"3.9.0a0\")", "add_magic_from_int(3420, \"3.8.0a0\")", "magic=3420:version"),
     ("m-c08-canonic", "C08", "fire", "xdis/magics.py", "    \"3.13 3.13.0 3.13.1\",\n    \"3.13.0rc3\",", "    \"3.13 3.13.0 3.13.1\",\n    \"3.13a6\",", "release=3.13"),
     ("m-c08-jython-suffix", "C08", "fire", "xdis/magics.py", "    version = re.sub(r\"(pypy|dropbox)$\", \"\", orig_version)", "    version = re.sub(r\"(pypy|dropbox|Jython)$\", \"\", orig_version)", "magic=1011"),
-    ("m-c08-int2magic", "C08", "fire", "xdis/magics.py", "        return struct.pack(\"<H\", magic_int) + b\"\\x99\\x00\"", "        return struct.pack(\">H\", magic_int) + b\"\\x99\\x00\"", "u16le-first"),
+    ("m-c08-int2magic", "C08", "fire", "xdis/magics.py", "        return struct.pack(\"<H\", magic_int) + b\"\\x99\\x00\"", "        return struct.pack(\">H\", magic_int) + b\"\\x99\\x00\"", "u16le-then-tail"),
     ("m-c09-category", "C09", "fire", "xdis/opcodes/opcode_38.py", "jrel_op(l, \"CALL_FINALLY\",    162,     0, 1)", "jabs_op2 = None\ndef_op(l, \"CALL_FINALLY\",    162,     0, 1)", "hasjrel"),
     ("m-c09-313-number", "C09", "fire", "xdis/opcodes/opcode_313.py", "def_op(loc, \"SEND\"                             , 104 , 0 , 0)", "def_op(loc, \"SEND\"                             , 105 , 0 , 0)", "SEND"),
     ("m-c09-27pypy", "C09", "fire", "xdis/opcodes/opcode_27pypy.py", "jrel_op(loc, \"JUMP_IF_NOT_DEBUG\", 204, conditional=True)", "jrel_op(loc, \"JUMP_IF_NOT_DEBUG\", 203, conditional=True)", "opcode_27pypy"),
@@ -251,7 +251,7 @@ CASES = [
     ("s-c05-offset2line-floor-mid", "C05", "silent", "xdis/bytecode.py", "    mid = (low + high + 1) // 2\n    while low <= high:", "    mid = (low + high) // 2\n    while low <= high:", ""),
     ("m-c11-name-slot-stringified", "C11", "fire", "xdis/unmarshal.py", "            co_nlocals = len(co_varnames)\n            co_filename = self.r_object(bytes_for_s=bytes_for_s)",
      "            co_nlocals = len(co_varnames)\n            co_filename = compat_str(self.r_object(bytes_for_s=bytes_for_s))", "object-to-text"),
-    ("m-c08-int2magic-10-only", "C08", "fire", "xdis/magics.py", "    if magic_int in (39170, 39171):\n        return struct.pack", "    if magic_int in (39170,):\n        return struct.pack", "header-bytes-are-the-table-key"),
+    ("m-c08-int2magic-10-only", "C08", "fire", "xdis/magics.py", "    if magic_int in (39170, 39171):\n        return struct.pack", "    if magic_int in (39170,):\n        return struct.pack", "u16le-then-tail"),
     ("m-c08-313-gets-312-table", "C08", "fire", "xdis/op_imports.py", "    \"3.13.0rc3\": opcode_313,", "    \"3.13.0rc3\": opcode_312,", "magic=3571"),
     ("m-c09-31-extended-arg-144", "C09", "fire", "xdis/opcodes/opcode_31.py", "def_op(loc, \"EXTENDED_ARG\", 143)", "def_op(loc, \"EXTENDED_ARG\", 144)", "EXTENDED_ARG-number-shift"),
     ("m-c04-labels-memoised", "C04", "fire", "xdis/wordcode.py", "def findlabels(code, opc):", "import functools\n\n\n@functools.lru_cache(maxsize=64)\ndef findlabels(code, opc):", "C18-R3:memoised-result"),
@@ -267,6 +267,8 @@ CASES = [
     ("m-c18-graal-magics-filter-object", "C18", "fire", "xdis/magics.py", "GRAAL3_MAGICS = (21150, 21280)", "GRAAL3_MAGICS = filter(None, (21150, 21280))", "one-shot-iterator"),
     ("m-c18-opnames-alias-edited", "C18", "fire", "xdis/bytecode.py", "        output = StringIO()\n        if self.opc.version_tuple > (2, 0):", "        output = StringIO()\n        self.opnames[0] = \"STOP_CODE\"\n        if self.opc.version_tuple > (2, 0):", "xdis.opcodes.*.opname"),
     ("m-c20-labels-memoised", "C20", "fire", "xdis/cross_dis.py", "def findlabels(code, opc):", "import functools\n\n\n@functools.lru_cache(maxsize=64)\ndef findlabels(code, opc):", "C18-R3:memoised-result"),
+    ("m-c11-short-file-guard-5", "C11", "fire", "xdis/load.py", "    elif osp.getsize(filename) < 50:", "    elif osp.getsize(filename) < 5:", "short-file-guard"),
+    ("s-c11-short-file-guard-restated", "C11", "silent", "xdis/load.py", "    elif osp.getsize(filename) < 50:", "    elif not osp.getsize(filename) >= 8:", ""),
     ("m-c02-table-cache-ignores-flavour", "C02", "fire", "xdis/op_imports.py", "    return op_imports[canonic_python_version.get(vers_str, vers_str)]",
      "    return op_imports.setdefault(\"memo:\" + version_tuple_to_str(version_info[:2]), op_imports[canonic_python_version.get(vers_str, vers_str)])", ""),
 ]
